@@ -9,12 +9,15 @@ The hop abstraction.  A datagram in flight is kept in the decoded form the recei
   from the datagram the client built, `Client.wireQuery`) becomes the server input
   `.q { name, type, id, from_ := clientAddr, dest := serverAddr }`;
 * downstream: the server's event `ans dst id type downenc name data tag` with `dst = clientAddr` becomes the client
-  input `.rq { rv := data.length, id, type, rcode := 0, name0 := name.head, buf := data }`.  This is the
+  input `.rq { rv := data.length, id, type := answerType type, rcode := 0, name0 := name.head, buf := data }`.  This is the
   HOP-LOSSLESS abstraction: for legal names and payloads that fit, what the client's `read_dns_withq` extracts from
   the server's encoded answer is exactly `data` (C08 for the query names; C09 / C10 for the answer encodings).  It is
   an assumption of this file, not something the world model re-derives;
 * raw mode: `rawtx bytes` becomes `.rawf clientAddr bytes`, `raw dst bytes` becomes `.rawans bytes`.
 Answers addressed to somebody else are not the client's business and vanish.
+
+Tie.  `step` is run next to the real client + real server pair, event by event (`Drv/World.lean`, `checks/worldcheck.py:
+report_world_model`): consumed / produced datagrams as the real receiver / sender decode them, tun writes, both state digests.
 
 Clock.  Both programs read the same clock.  A `select` that times out consumed the whole seconds of its timeout
 (the convention of `Client/Loop.lean`); whatever one side's step adds to its clock is added to the other side's.
@@ -94,10 +97,15 @@ def srvInput : UpD → Server.Input
     .q { name := name, type := ty, id := id, from_ := clientAddr, id2 := 0, from2 := Server.Addr.zero, dest := serverAddr }
   | .raw b => .rawf clientAddr b
 
+/-- `q.type` as `read_dns_withq` leaves it: the type of the ANSWER record (dns.c `dns_decode`, "Here type is the answer type (note
+A->CNAME)"); `dns_encode` answers an A question with a CNAME record, every other type with a record of the question's type.  (Found by
+the tie of this file to the real client + server pair, `Drv/World.lean`; the tunnel phase of the client never reads the field.) -/
+def answerType (ty : Nat) : Nat := if ty = Gen.T_A then Gen.T_CNAME else ty
+
 /-- the client input a datagram becomes (see the head of the file: hop-lossless abstraction) -/
 def cliInput : DownD → Client.CInput
   | .ans id ty name data =>
-    .rq { rv := (data.length : Int), id := id, type := ty, rcode := 0, name0 := name.headD 0, buf := data }
+    .rq { rv := (data.length : Int), id := id, type := answerType ty, rcode := 0, name0 := name.headD 0, buf := data }
   | .raw b => .rawans b
 
 /-! ### one step of either side -/
